@@ -48,12 +48,15 @@ Section Generic.
   Variable defaults : P.
   Variable base : Z.
 
-  (** step 0: the model's validation, update outcome and stored value agree with what was seen *)
+  (** step 0: the model's validation, update outcome and stored value agree with what was seen.
+      Validation and update are compared as ACCEPTED / NOT ACCEPTED: whether a set that is not accepted
+      fails with an error or with a panic inside validation (nil decimal) is immaterial to C16, and
+      depends on the order of the checks in [Validate()] when two fields are bad at once. *)
   Definition corr_update (c : mcase P O) : bool :=
     let '(o, st) := update (k_via c) (k_params c) (k_before c) in
     eqb (k_before c) defaults
-    && (outcome_code (validate (k_params c)) =? k_val c)
-    && (outcome_code o =? k_upd c)
+    && Bool.eqb (outcome_code (validate (k_params c)) =? 0) (k_val c =? 0)
+    && Bool.eqb (outcome_code o =? 0) (k_upd c =? 0)
     && eqb (k_after c) st.
 
   Definition agrees (p : P) (o : O) (code : Z) : bool :=
